@@ -75,6 +75,14 @@ def main() -> int:
     run = mod.run(ctx)
     # run: {"evaluations", "distinct_nontrivial", "rule", "samples", "violations": [payload...],
     #       "corr_broken": [payload...], "known": [(id, what)...], ...}
+    # extraction / driver glue: re-evaluate the smallest cases with vm_compute inside Coq
+    xpairs = run.pop("_xcheck", [])
+    if rc == 0 and xpairs:
+        xc = engine.vm_crosscheck(prop, xpairs, 3 if args.tier == "quick" else 25)
+        run["vm_compute_crosscheck"] = {"cases": xc["checked"], "mismatches": len(xc["mismatches"])}
+        if xc["mismatches"]:
+            run.setdefault("corr_broken", []).append(
+                {"correspondence": "extracted driver <-> vm_compute evaluation of Driver.run_line", "detail": xc["mismatches"][:2]})
     for kid, what in run.get("known", []):
         print(f"KNOWN-FINDING: property={prop} {kid}: {what}")
 
